@@ -8,7 +8,7 @@ VERIF = os.path.dirname(os.path.dirname(os.path.abspath(__file__)))
 src = sys.argv[1].rstrip("/")
 sid = os.path.basename(src)
 meta = json.load(open(os.path.join(src, "meta.json")))
-wt = sys.argv[2] if len(sys.argv) > 2 else "/tmp/seed/wt/" + meta["property"]
+wt = sys.argv[2] if len(sys.argv) > 2 else os.path.join(os.path.dirname(os.path.dirname(os.path.abspath(src))), "wt", meta["property"])
 env = dict(os.environ, GOFLAGS="-mod=mod", GOPROXY="off")
 def sh(cmd, **kw):
     return subprocess.run(cmd, shell=True, cwd=wt, env=env, capture_output=True, text=True, **kw)
